@@ -1,7 +1,7 @@
 from dataclasses import dataclass, field
 
 from kirin import ir
-from kirin.dialects import ilist, scf
+from kirin.dialects import func, ilist
 from kirin.ir.method import Method
 from kirin.passes import HintConst, Pass, TypeInfer
 from kirin.passes.aggressive import UnrollScf
@@ -80,10 +80,14 @@ class AggressiveUnroll(Pass):
 
     @classmethod
     def inline_heuristic(cls, node: ir.Statement) -> bool:
-        """The heuristic to decide whether to inline a function call or not.
-        inside loops and if-else, only inline simple functions, i.e.
-        functions with a single block
+        """The heuristic to decide whether to inline a function or not.
+
+        `node` is the code of the callee. A `return` nested inside the callee's
+        control flow would be inlined as a return of the caller (cutting the caller
+        short), so only functions that return at the end of their body are inlined.
         """
-        return not isinstance(
-            node.parent_stmt, (scf.For, scf.IfElse)
-        )  # always inline calls outside of loops and if-else
+        for stmt in node.walk():
+            if isinstance(stmt, func.Return) and stmt.parent_stmt is not node:
+                return False
+
+        return True
